@@ -103,9 +103,15 @@ func VerifC02() {
 	now := time.Now().UnixMilli()
 	nTxs := 1 + verifChoose("mempoolTxs", verifParam("maxTxs", 2, 2))
 	rules := hDefaultRules()
-	if nTxs > 1 && verifChoose("tightBlock", 2) == 1 {
-		// a block limit that only fits one transaction's bandwidth: the second one must be left out consistently
-		rules.maxBlock[fees.Bandwidth] = 60
+	if nTxs > 1 {
+		// a block limit that only fits one transaction — in bandwidth (the first dimension checked) or in compute (a later
+		// one): the second transaction must be left out without leaving a trace in the builder's consumption
+		switch verifChoose("tightBlock", 3) {
+		case 1:
+			rules.maxBlock[fees.Bandwidth] = 60
+		case 2:
+			rules.maxBlock[fees.Compute] = 4
+		}
 	}
 	parentView := &c02View{m: map[string][]byte{}}
 	fm0 := internalfees.NewManager(nil)
